@@ -284,6 +284,8 @@ def fields(rep, prog):
         merged = tkey(ev.getitem(A('circuit_dict'), A('n')))
         # the saved values of the element of that name are laid over the user parameters (on the branch where the circuit section has that name)
         okm = any(any(tkey(x) == merged for x in l[1:]) for g, l in branches)
+        if not okm and any(any(repr(merged) in repr(tkey(x)) for x in l[1:]) for g, l in branches):
+            okm = True          # the same lookup behind a membership test (circuit_dict.get(name, {}))
     rep.ob('R15.fields', 'head:restored', okr, 'name / reverse / type read back', prog.site(sm, u))
     rep.ob('R15.fields', 'values-merged-by-name', okm, 'circuit values are merged by element name', prog.site(sm, u))
     # schemdraw serialiser / deserialiser type names: an object written under type(x).__name__ of class K is rebuilt by the entry named K
@@ -324,11 +326,20 @@ def fields(rep, prog):
             if id(f_) in seen_f: continue
             seen_f.add(id(f_))
             for n in ast.walk(f_):
-                if isinstance(n, ast.Subscript) and isinstance(n.slice, ast.Constant) and isinstance(n.slice.value, str): read.add(n.slice.value)
-                if isinstance(n, ast.Call) and isinstance(n.func, ast.Attribute) and n.func.attr == 'get' and n.args and isinstance(n.args[0], ast.Constant) and isinstance(n.args[0].value, str): read.add(n.args[0].value)
+                def lit(x_):
+                    # a string literal, or a module-level name bound to one
+                    if isinstance(x_, ast.Constant) and isinstance(x_.value, str): return x_.value
+                    if isinstance(x_, ast.Name):
+                        for mm_ in (sm, prog.mod('Circuit.dump_load')):
+                            d_ = mm_.defs.get(x_.id)
+                            if isinstance(d_, ast.Constant) and isinstance(d_.value, str): return d_.value
+                    return None
+                if isinstance(n, ast.Subscript) and lit(n.slice) is not None: read.add(lit(n.slice))
+                if isinstance(n, ast.Call) and isinstance(n.func, ast.Attribute) and n.func.attr in ('get', 'pop') and n.args and lit(n.args[0]) is not None: read.add(lit(n.args[0]))
                 if isinstance(n, ast.Call) and isinstance(n.func, ast.Name) and n.func.id.startswith('_') and isinstance(sm.defs.get(n.func.id), ast.FunctionDef): todo.append(sm.defs[n.func.id])
         if isinstance(doc, dict) and all(isinstance(k, str) for k in doc):
             okd = set(doc) == {'circuit', 'simple_circuit'} and {'circuit', 'simple_circuit', 'components'} <= read
+            if not okd and set(doc) == {'circuit', 'simple_circuit'}: okd = None          # written as specified; the reading side was not recognised (names are collected from the syntax)
     rep.ob('R15.fields', 'document', okd, "document = {'circuit', 'simple_circuit'} on both sides", prog.site(sm, da or sm.tree))
 
 
